@@ -1,6 +1,7 @@
 (* Props/C11.v — property theorems only.  C11: the combined g-function is well formed and interpolation-consistent. *)
 From Coq Require Import ZArith QArith List.
-From GHE Require Import Base.QUtil gen.Src Model.GJoin Proof.GJoinP.
+From Coq Require Import String Qabs.
+From GHE Require Import Base.QUtil gen.Src Model.GJoin Proof.GJoinP Model.GfPlan Proof.GfPlanP.
 Import ListNotations.
 Open Scope Q_scope.
 
@@ -36,3 +37,50 @@ Example C11_equal_point_duplicates :
   combine_sts_lts [-17 # 2; -39 # 5] [1; 2] [-12; -10; -17 # 2; -8] [1 # 10; 1 # 5; 3 # 10; 2 # 5]
   = Ok ([-12; -10; -17 # 2; -17 # 2; -39 # 5], [1 # 10; 1 # 5; 3 # 10; 1; 2]).
 Proof. vm_compute. reflexivity. Qed.
+
+(* ---- the decision prefix of g_function_interpolation (numeric statements and kind tables REGENERATED from gfunction.py, control flow pinned
+   as source text in Model/GfPlan.v).  gf_plan heights h kind says what the method does with a family stored at `heights`, asked for the
+   equivalent height h with the interpolation `kind`: return the single stored curve, hand (kind, extrapolate?, h_eq) to interp1d, or raise. *)
+
+(* whatever kind ends up being handed to scipy needs no more knots than there are stored heights — for EVERY number of stored heights and
+   every requested kind (interp1d raises otherwise) *)
+Theorem C11_interp_kind_has_enough_curves : forall heights h kind k ex he,
+  gf_plan heights h kind = PInterp k ex he ->
+  exists req, kind_needs k = Some req /\ (req <= Z.of_nat (List.length heights))%Z.
+Proof. exact plan_kind_supported. Qed.
+Print Assumptions C11_interp_kind_has_enough_curves.
+
+(* the default kind never runs into a missing table entry, and with two or more stored heights it always interpolates *)
+Theorem C11_default_kind_total : forall heights h, gf_plan heights h "default" <> PKeyError /\
+  ((2 <= List.length heights)%nat -> exists k ex he, gf_plan heights h "default" = PInterp k ex he).
+Proof. exact plan_default_no_keyerror. Qed.
+Print Assumptions C11_default_kind_total.
+
+(* asked for a STORED height H: no exception and no extrapolation; a single-curve family returns its curve with h_eq = H exactly; a larger family is
+   evaluated at a stored height within the 1e-6 snapping distance of H (H itself unless another stored height lies that close) *)
+Theorem C11_stored_height_is_interpolated_not_extrapolated : forall heights H, In H heights -> 0 < H ->
+  match gf_plan heights H "default" with
+  | PSingle he => heights = [H] /\ he = H
+  | PInterp k false he => In he heights /\ Qabs (he - H) < ct /\ (2 <= List.length heights)%nat
+  | _ => False
+  end.
+Proof. exact plan_at_stored_height. Qed.
+Print Assumptions C11_stored_height_is_interpolated_not_extrapolated.
+
+(* OBSERVATION (not a clause of C11): with ONE stored height the documented "requires two g-function curves" ValueError is unreachable — the
+   stored curve is returned for EVERY requested height (the second disjunct of the test lacks an abs()); confirmed on the real method by the
+   correspondence run (50 m, 101 m and 300 m asked of a family stored at 100 m all return the 100 m curve, with the extrapolation warning only) *)
+Theorem C11_single_curve_family_never_raises : forall H h, 0 < H -> exists he, gf_plan [H] h "default" = PSingle he.
+Proof. exact single_family_never_raises. Qed.
+Print Assumptions C11_single_curve_family_never_raises.
+
+Example C11_plan_examples :
+  gf_plan [60; 195 # 2; 135] (195 # 2) "default" = PInterp "quadratic" false (195 # 2) /\
+  gf_plan [60; 135] 200 "cubic" = PInterp "linear" true 200 /\
+  gf_plan [60; 75; 90; 110; 135] (1349999995 # 10000000) "default" = PInterp "cubic" false 135 /\
+  gf_plan [100] (1000999 # 10000) "default" = PSingle (1000999 # 10000) /\
+  gf_plan [100] 101 "default" = PSingle 101 /\
+  gf_plan [100] 50 "default" = PSingle 50 /\
+  gf_plan [100] 101 "linear" = PValueError /\
+  gf_plan [60; 135] 100 "nearest" = PKeyError.
+Proof. vm_compute. repeat split; reflexivity. Qed.
